@@ -41,3 +41,36 @@ let () =
          | Some (t, rest) -> tok_of_bytes (Model.encode t) ^ " " ^ tok_of_bytes rest
          | None -> "NONE")
     | _ -> failwith "args")
+
+(* c02.layout <footer> <groups>
+   footer: raw thrift of the FileMetaData the library wrote (only the fields that are not
+           offsets / sizes / counts derived from the pages are taken from it);
+   groups: '_' or group|group..., group = chunk;chunk..., chunk = bloom/cindex/pages,
+           pages = '_' or page+page..., page = xHEADER:xBODY:rows (rows in hex).
+   Answer: <bytes the model writer lays out> <file_ok: the hypotheses of the layout theorems hold> *)
+let split_or_empty c s = if s = "_" || s = "" then [] else String.split_on_char c s
+
+let () =
+  register "c02.layout" (function
+    | [footer; groups] ->
+        (match Model.decode_thrift (bytes_of_tok footer) with
+         | None -> "ERR footer"
+         | Some (ft, _) ->
+             let bad = ref "" in
+             let page s =
+               match String.split_on_char ':' s with
+               | [h; b; rows] ->
+                   (match Model.decode_thrift (bytes_of_tok h) with
+                    | Some (ht, _) -> Model.observe_page ht (n_of_hex rows) (bytes_of_tok b)
+                    | None -> bad := "header"; Model.observe_page (Model.TStruct []) Model.N0 [])
+               | _ -> failwith "page token" in
+             let chunk s =
+               match String.split_on_char '/' s with
+               | [bloom; cindex; pages] ->
+                   ((List.map page (split_or_empty '+' pages), bytes_of_tok bloom), bytes_of_tok cindex)
+               | _ -> failwith "chunk token" in
+             let obs = List.map (fun g -> List.map chunk (split_or_empty ';' g)) (split_or_empty '|' groups) in
+             if !bad <> "" then "ERR " ^ !bad else
+             let fi = Model.observe_file ft obs in
+             tok_of_bytes (Model.layout_bytes fi) ^ " " ^ tok_of_bool (Model.file_ok fi))
+    | _ -> failwith "args")
